@@ -219,8 +219,8 @@ type State struct {
 	// region id ranges (lo, hi] whose memory was NOT allocated (zeroed) by this execution: results
 	// allocated by callees applied by contract, allocations of earlier loop iterations. Their
 	// initial content is unknown, so the "fresh memory reads as zero" axiom excludes them.
-	foreign [][2]int64
-	regionLen map[int64]*Term  // length of the tracked content of regionSeq regions
+	foreign   [][2]int64
+	regionLen map[int64]*Term // length of the tracked content of regionSeq regions
 	lenAlias  map[*Term]*Term // names introduced for make() lengths -> the length expression
 	// ghost for the assumed stdlib contract  strconv.ParseFloat(string(json.Marshal(x)), 64) == x
 	// (finite float64 x): byte regions / strings known to be the JSON text of a float value
@@ -230,7 +230,7 @@ type State struct {
 	locks map[int64]int8
 	// access hook for lock-protected globals (set when the package declares `protects`)
 	accessHook func(st *State, a *Term, write bool)
-	havocUB int64 // while a callee's frame is havocked: upper bound for the regions of unknown pointers
+	havocUB    int64 // while a callee's frame is havocked: upper bound for the regions of unknown pointers
 }
 
 func (st *State) Clone() *State {
@@ -293,7 +293,16 @@ func (st *State) loadScalar(s Sort, a *Term) *Term {
 // loads that resolve to an initial array.
 func (st *State) noteLoadedAddr(v *Term) {
 	if v.Op == "select" && v.Args[0].Op == "var" && !v.bound {
-		st.Assume(IntCmp("<=", Rg(v), IntConst(0)))
+		// ... unless the address read lies in memory a callee allocated (result regions, objects a callee
+		// stored into its frame): that memory is described by the callee's postcondition only, and its
+		// pointers may refer to anything that exists now
+		ar := Rg(v.Args[1])
+		if ar.IsConst() && ar.Val.Sign() <= 0 {
+			st.Assume(IntCmp("<=", Rg(v), IntConst(0)))
+			return
+		}
+		st.Assume(Implies(IntCmp("<=", ar, IntConst(0)), IntCmp("<=", Rg(v), IntConst(0))))
+		st.Assume(IntCmp("<=", Rg(v), IntConst(*st.nextRg)))
 	}
 }
 
